@@ -82,7 +82,7 @@ def make_content(rng, ns, content):
     if content == "walk":
         x = np.cumsum(rng.integers(-60, 61, size=(ns, 384)), axis=0) + rng.integers(-400, 401, size=(ns, 384))
     elif content == "noise":
-        x = rng.integers(-6000, 6001, size=(ns, 384))
+        x = rng.integers(-8191, 8192, size=(ns, 384))
     elif content == "impulses":
         x = rng.integers(-20, 21, size=(ns, 384))
         n = max(1, ns // 40)
@@ -149,8 +149,7 @@ def impl_convert(ap, W, extra, nshank=None):
     out = {"files": []}
     conv = None
     try:
-        conv = NP2Converter(ap, post_check=False, compress=False)
-        m = conv.sr.meta
+        m = spikeglx.read_meta_data(Path(ap).with_suffix(".meta"))
         out["ap_meta"] = {"acq": [int(v) for v in m["acqApLfSy"]], "sns": [int(v) for v in m["snsApLfSy"]],
                           "nsaved": int(m["nSavedChans"]), "fsize": int(m["fileSizeBytes"]),
                           "rate": int(m["imSampRate"]),
@@ -158,7 +157,8 @@ def impl_convert(ap, W, extra, nshank=None):
                           "fileTimeSecs": float(m["fileTimeSecs"])}
         cm = spikeglx._map_channels_from_meta(m)
         out["shanks"] = [int(s) for s in cm["shank"]]
-        out["version"] = {"NP2.1": 21, "NP2.4": 24}.get(conv.np_version, 0)
+        out["version"] = {"NP2.1": 21, "NP2.4": 24}.get(spikeglx._get_neuropixel_version_from_meta(m), 0)
+        conv = NP2Converter(ap, post_check=False, compress=False)
         conv.init_params(nwindow=W, extra=extra, nshank=nshank)
         status = conv.process(overwrite=True)
         out["status"] = int(status)
@@ -470,8 +470,8 @@ def run(ctx):
     dist["multi_window"] = sum(1 for c in cases if c["nwin"] > 1)
     dist["single_window"] = sum(1 for c in cases if c["nwin"] == 1)
     dist["ns_not_multiple_of_12"] = sum(1 for c in cases if c["desc"]["ns"] % 12)
-    dist["ns_min"] = min(c["desc"]["ns"] for c in cases)
-    dist["ns_max"] = max(c["desc"]["ns"] for c in cases)
+    dist["ns_min"] = min([c["desc"]["ns"] for c in cases] or [0])
+    dist["ns_max"] = max([c["desc"]["ns"] for c in cases] or [0])
     dist["window_sizes"] = sorted({c["desc"]["W"] for c in cases})
     dist["contents"] = sorted({c["desc"]["content"] for c in cases})
     dist["shankmaps"] = sorted({c["desc"]["shankmap"] for c in cases})
